@@ -724,7 +724,7 @@ func runC05(c *ev.Ctx) {
 	r := rng(c, 0)
 	stills := stillCorpus(r, c.N(60, 300), 48)
 	anims := animCorpus(r, c.N(24, 120), 32)
-	seeds := append(append(append([]namedFile{}, stills...), anims...), aspectCorpus(r)...)
+	seeds := append(append(append(append([]namedFile{}, stills...), anims...), aspectCorpus(r)...), muxAnimCorpus(r, c.N(12, 60))...)
 	var raw [][]byte
 	for _, s := range seeds {
 		raw = append(raw, s.Data)
